@@ -197,6 +197,11 @@ func drawDescriptor(rt *rapid.T, o gen.GenOpts, loopWrapOK bool) *descriptor {
 	for _, v := range gen.IntVars {
 		d.Vars[v] = int64(rapid.IntRange(0, 3).Draw(rt, v))
 	}
+	for _, v := range gen.DataObjPool {
+		// data objects declared on the process, read by conditions wherever they
+		// end up (inline or inside the wrapping sub-processes)
+		d.Vars[gen.DataObjKey(v)] = rapid.Bool().Draw(rt, "do_"+v)
+	}
 	for _, v := range gen.BoolVars {
 		d.Vars[v] = rapid.Bool().Draw(rt, v)
 	}
@@ -324,7 +329,7 @@ func classify(d *descriptor) (cls []string, nontrivial bool) {
 }
 
 func genOpts() gen.GenOpts {
-	o := gen.GenOpts{MaxDepth: 3, MaxNodes: 12, AllKinds: true, XPath: true, NoSub: true}
+	o := gen.GenOpts{MaxDepth: 3, MaxNodes: 12, AllKinds: true, XPath: true, NoSub: true, DataObjConds: true}
 	if rec.Tier() == "thorough" {
 		o.MaxNodes = 24
 	}
